@@ -634,9 +634,18 @@ structure DChain (V : Type) where
   fixPack : List (String × (V → V)) := []
   fixUnpack : List (String × (V → V)) := []
 
+/-- dataclass inheritance: a field that the subclass declares again keeps its POSITION and takes the new annotation
+    and default; new fields are appended -/
+def overrideField {V : Type} (f : String × Ty × Option V) : List (String × Ty × Option V) → List (String × Ty × Option V)
+  | [] => [f]
+  | g :: rest => if g.1 = f.1 then f :: rest else g :: overrideField f rest
+
+def mergeFields {V : Type} (base own : List (String × Ty × Option V)) : List (String × Ty × Option V) :=
+  own.foldl (fun acc f => overrideField f acc) base
+
 /-- `dataclasses.fields(class k)` -/
 def DChain.eff {V : Type} (c : DChain V) (k : Nat) : List (String × Ty × Option V) :=
-  (c.levels.take (k + 1)).flatten
+  (c.levels.take (k + 1)).foldl mergeFields []
 
 /-- the dataclass payload that class `k` denotes: the flattened field list -/
 def DChain.ddef {V : Type} (c : DChain V) (k : Nat) : DDef V :=
